@@ -7,13 +7,19 @@ for id in "$@"; do
   wt=/tmp/confirm-$id
   git -C /repo worktree remove --force $wt 2>/dev/null
   git -C /repo worktree add --detach $wt HEAD -q || continue
-  pkgdir=$wt
-  if grep -q '^package log' $d/*_test.go; then pkgdir=$wt/log; fi
-  for f in $d/*_test.go; do cp $f $pkgdir/zz_$(basename $f); done
+  dirs=""
+  for f in $d/*_test.go; do
+    pkgdir=$wt
+    if grep -q '^package log' $f; then pkgdir=$wt/log; fi
+    cp $f $pkgdir/zz_$(basename $f)
+    case " $dirs " in *" $pkgdir "*) ;; *) dirs="$dirs $pkgdir";; esac
+  done
   tests=$(grep -h '^func Test' $d/*_test.go | sed 's/func \(Test[A-Za-z0-9_]*\).*/\1/' | paste -sd'|')
-  (cd $pkgdir && go test -vet=off -count=1 -timeout 10m -run "^($tests)\$" . > $wt/without.log 2>&1); rc0=$?
+  runall() { rc=0; for p in $dirs; do (cd $p && go test -vet=off -count=1 -timeout 10m -run "^($tests)\$" . >> $1 2>&1) || rc=1; done; return $rc; }
+  : > $wt/without.log; : > $wt/with.log
+  runall $wt/without.log; rc0=$?
   (cd $wt && git apply $d/patch.diff) || echo "patch does not apply" >> $wt/without.log
-  (cd $pkgdir && go test -vet=off -count=1 -timeout 10m -run "^($tests)\$" . > $wt/with.log 2>&1); rc1=$?
+  runall $wt/with.log; rc1=$?
   python3 - "$id" "$rc0" "$rc1" "$tests" $wt <<'PY'
 import json,sys
 id_,rc0,rc1,tests,wt=sys.argv[1:6]
